@@ -35,6 +35,7 @@ struct Agent {
 	RecSink *sink_;
 	frg::va_struct *vsp_;
 	bool *unexpected_terminal;
+	bool lenient = false;      // ignore unknown conversion characters instead of reporting an error (both kinds of agent exist)
 	bool clamp_output = false; // for inputs with astronomically large widths: expand at most 1000 pad characters (the parse is what is under test)
 	frg::expected<frg::format_error> operator()(char c) { sink_->append(c); return frg::success; }
 	frg::expected<frg::format_error> operator()(const char *c, size_t n) { sink_->append(c, n); return frg::success; }
@@ -43,7 +44,7 @@ struct Agent {
 		switch(t) {
 		case 'c': case 'p': case 's': frg::do_printf_chars(*sink_, t, opts, szmod, vsp_); break;
 		case 'd': case 'i': case 'o': case 'x': case 'X': case 'b': case 'B': case 'u': frg::do_printf_ints(*sink_, t, opts, szmod, vsp_); break;
-		default: *unexpected_terminal = true; return frg::format_error::agent_error; // a real agent reports the unknown conversion
+		default: *unexpected_terminal = true; if(lenient) break; return frg::format_error::agent_error; // a strict agent reports the unknown conversion, a lenient one ignores it
 		}
 		if(sink_->overflowed) return frg::format_error::agent_error;
 		return frg::success;
@@ -82,7 +83,7 @@ struct ExactVaList {
 struct FriggResult { bool completed = false; bool panicked = false; bool agent_error = false; bool unexpected_terminal = false; std::string out, panic; };
 
 // fmt must point to a NUL-terminated string in a GuardedBuf (exact size)
-inline FriggResult run_frigg(const char *fmt, const std::vector<uint64_t> &slots, bool clamp_output = false) {
+inline FriggResult run_frigg(const char *fmt, const std::vector<uint64_t> &slots, bool clamp_output = false, bool lenient = false) {
 	FriggResult r;
 	ExactVaList ev(slots);
 	frg::va_struct vs;
@@ -93,7 +94,7 @@ inline FriggResult run_frigg(const char *fmt, const std::vector<uint64_t> &slots
 	vs.arg_list = arg_list;
 	RecSink sink;
 	try {
-		auto res = frg::printf_format(Agent{&sink, &vs, &r.unexpected_terminal, clamp_output}, fmt, &vs);
+		auto res = frg::printf_format(Agent{&sink, &vs, &r.unexpected_terminal, lenient, clamp_output}, fmt, &vs);
 		r.completed = true;
 		r.agent_error = !res;
 	} catch(const PanicStop &p) { r.panicked = true; r.panic = p.msg; }
